@@ -307,6 +307,7 @@ PROFILES = {
     "dur": dict(durs=[1, 7, "DYN", 0], pads=["Arel"], args=["bad"], sizes=[]),
     "args": dict(durs=[0], pads=["E1010"], args=["t1", "t2", "base", "bad"], sizes=[]),
     "size": dict(durs=[0], pads=["A32"], args=["bad"], sizes=[(1, 1), (2, 1), (2, 2)]),
+    "one": dict(durs=[0], pads=["E1010"], args=["t1", "bad"], sizes=[]),
     "pad": dict(durs=[0], pads=["E0", "E1010", "A32", "Arel", "Arel2"], args=["bad"], sizes=[(1, 1)]),
 }
 
